@@ -382,7 +382,7 @@ pub fn check_case(tree: &Tree, cfg: &WalkCfg, base: &Path, threads: &[usize], re
 }
 
 pub fn run(ctx: &Ctx) -> Report {
-    let ntrees = ctx.cases(200, 5000);
+    let ntrees = ctx.cases(800, 20_000);
     let ncfg = if ctx.is_thorough() { 12 } else { 6 };
     let thorough = ctx.is_thorough();
     crate::par_cases(ctx, 6, ntrees, |rng, i, rep| {
